@@ -169,6 +169,7 @@ fn match_resource(p: RP, rem: &[&str]) -> Option<Params> {
         // `/{t}*`: a slash, then everything that is left (possibly nothing, possibly more slashes)
         RP::Tail => (!rem.is_empty()).then(|| vec![("t".to_string(), rem.join("/"))]),
         RP::Multi => full(&[Elt::Lit("a")]).or_else(|| full(&[Elt::Lit("b")])),
+        RP::MultiEmpty => full(&[]).or_else(|| full(&[Elt::Lit("b")])),
     }
 }
 
